@@ -444,6 +444,8 @@ def tgt(v):
         d = site(v); return ["mod", d[0]] if d else None
     if isinstance(v, (type, types.FunctionType)):
         d = site(v); return ["obj"] + d if d else None
+    if isinstance(v, int) and not isinstance(v, bool) and v >= 1000:
+        return ["obj", v // 1000, v % 1000]
     return None
 def walk_cls(c, seen):
     s = site(c)
